@@ -195,6 +195,20 @@ def gen_case(rng, ctx):
         prefix = rng.choice(["", "", " ", "\t", "r1:", "my ranking : ", "a:"])
         suffix = rng.choice(["", "", " ", "\n", "  \t"])
         return {"kind": kind, "ranking": r, "style": style, "prefix": prefix, "suffix": suffix, "seed": rng.randrange(10 ** 6)}
+    if kind == "file" and rng.random() < 0.04:
+        # long lines: rankings of 80-2000 elements whose text exceeds 1000 / 4096 / 65536 characters (wrapping, buffering,
+        # line-length limits), with names that contain blanks
+        n = rng.choice([80, 120, 300, 600, 2000])
+        style = rng.choice(["phrases", "phrases", "ints", "words"])
+        if style == "ints":
+            names = rng.sample(range(0, 10 * n), n)
+        elif style == "words":
+            names = [f"item{i:05d}" for i in rng.sample(range(0, 10 * n), n)]
+        else:
+            pad = rng.choice(["the film no ", "a b c ", "x y\tz ", "long name with many blanks in it "])
+            names = [pad + f"{i:04d}" + rng.choice(["", " bis", " (2)"]) for i in rng.sample(range(0, 10 * n), n)]
+        ds, _base = gen.large_dataset(rng, n, rng.choice([1, 2, 3]), rng.choice(["near", "groups", "near-incomplete"]), names=names)
+        return {"kind": "file", "ds": ds, "long": style}
     if kind == "file":
         strings = rng.random() < 0.5
         n = rng.randint(1, 7)
@@ -298,6 +312,10 @@ def check_case(case, ctx):
             if os.path.exists(path):
                 os.remove(path)
         ctx.count("file_round_trips")
+        if case.get("long"):
+            ctx.count("file_round_trips_long_lines")
+            ctx.count("file_round_trips_long_lines:" + case["long"])
+            sub = {"kind": "file", "long": case["long"], "ds": ds}
         has_empty = any(len(r) == 0 for r in ds)
         if has_empty:
             ctx.count("file_round_trips_with_empty_ranking")
@@ -314,6 +332,12 @@ def check_case(case, ctx):
                     ref.dataset_multiset([r for r in libx.normalise_raw(ds) if r]) == \
                     ref.dataset_multiset([r for r in libx.raw_dataset(back) if r]):
                 mech += ":empty-rankings-lost"
+            if case.get("long"):
+                a, b = libx.normalise_raw(ds), libx.raw_dataset(back)
+                lost = sorted({repr(e) for r in a for bk in r for e in bk} - {repr(e) for r in b for bk in r for e in bk})[:4]
+                ctx.violation(mech + ":long-lines", f"{len(a)} rankings of up to {max(sum(len(bk) for bk in r) for r in a)} "
+                              f"elements written, {len(b)} read back; names written and not read back: {lost}", sub)
+                return
             ctx.violation(mech, f"written {libx.normalise_raw(ds)}, read back {libx.raw_dataset(back)}", sub,
                           observed=libx.raw_dataset(back), expected=libx.normalise_raw(ds))
             return
@@ -382,6 +406,8 @@ def reach(counters, tier, info):
             out.append({"name": f"round trips {style} notation, {t} elements", "observed": v, "required": 200 * k,
                         "ok": v >= 200 * k})
     for name, key, need in [("file round trips", "file_round_trips", 1000 * k),
+                            ("file round trips with lines of more than 1000 characters", "file_round_trips_long_lines", 40 * k),
+                            ("... whose names contain blanks", "file_round_trips_long_lines:phrases", 15 * k),
                             ("file round trips of datasets containing an empty ranking",
                              "file_round_trips_with_empty_ranking", 100 * k),
                             ("texts parsed", "parsed", 1000 * k), ("texts rejected with ValueError", "rejected", 3000 * k)] + \
